@@ -3305,10 +3305,16 @@ def _check_entry_for_changes(
 
         if filter_blob_callback is not None:
             blob = filter_blob_callback(blob, tree_path)
-    except FileNotFoundError:
-        # The file was removed, so we assume that counts as
-        # different from whatever file used to exist.
+    except (FileNotFoundError, NotADirectoryError):
+        # The file was removed (or a leading directory was replaced by a
+        # file), so we assume that counts as different from whatever file
+        # used to exist.
         return tree_path
+    except OSError as e:
+        if e.errno == errno.ELOOP:
+            # a leading directory was replaced by a symlink loop
+            return tree_path
+        raise
     else:
         if blob.id != entry.sha:
             return tree_path
